@@ -16,6 +16,7 @@ theorem main_step {c : Cfg} (hbs : 0 < c.bs) {s s' : State} {a : Nat} (M : Main 
   pub := pub_step M h hk hk'
   capw := capw_step M h hk hk'
   relsub := relsub_step M h hk hk'
+  closedst := closedst_step M h hk hk'
   cons := cons_step M h hk hk'
   got := (got_step M h hk hk').1
   basele := (got_step M h hk hk').2
@@ -32,6 +33,7 @@ theorem main_fresh (val : Nat → Nat) (cap : Nat) (item : Nat → Nat) : Main (
     rw [this] at hi; exact absurd hi (by decide)
   capw := fun i hi => absurd rfl hi
   relsub := fun t i hi => by cases hi
+  closedst := fun h => by cases h
   cons := fun t i hi => absurd hi (Nat.not_lt_zero _)
   got := fun t => rfl
   basele := fun t => Nat.le_refl _
@@ -84,8 +86,9 @@ theorem clr_step {c : Cfg} {s s' : State} {a : Nat} (hk : s.clearing = true) (R 
       refine ⟨hk, a, ?_, ?_, ?_⟩
       · intro u hu; show upd s.pc a _ u = .idle; rw [upd_other _ _ hu]; exact hidle u hu
       · intro i hi
+        have hi' : s.cap ≤ i := hi
         show upd s.word j stInitial i = 0
-        rw [upd_other _ _ (by omega)]; exact hcap i hi
+        rw [upd_other _ _ (by omega)]; exact hcap i hi'
       · by_cases hlt : j + 1 < s.cap
         · left
           refine ⟨j + 1, ?_, hlt, ?_⟩
@@ -99,6 +102,7 @@ theorem clr_step {c : Cfg} {s s' : State} {a : Nat} (hk : s.clearing = true) (R 
           refine ⟨?_, ?_⟩
           · show upd s.pc a _ a = _; rw [upd_same, if_neg hlt]
           · intro i hi
+            have hi' : i < s.cap := hi
             show upd s.word j stInitial i = 0
             by_cases hij : i = j
             · subst hij; rw [upd_same]; rfl
